@@ -403,7 +403,7 @@ Proof.
   - (* LServeCAS *)
     destruct (bool_eq ok (bool_decide (svc s = Stopped))); [|done]. inversion Hs; subst. destruct ok; done.
   - (* LServeInit *)
-    destruct (svc s); try done. destruct n; [done|]. inversion Hs; subst. unfold Inv. simpl.
+    destruct (svc s); try done. destruct (wq s); [done|]. destruct n; [done|]. inversion Hs; subst. unfold Inv. simpl.
     apply (InvC_init (nextw s) (S n)).
   - destruct (svc s); try done. destruct (wq s); [|done]. inversion Hs; subst. done.
   - (* LPubCheck *)
